@@ -34,7 +34,7 @@ func (s *scen) roots() map[string][]chainsim.Action {
 	f2 := append(append([]chainsim.Action{}, f...), s.freeAlloc("c1", "c1", 2, 3.5, 5, "", []int{1, 2, 3}, 0), s.freeAlloc("c1", "c1", 2, 3.5, 3, "", []int{1, 2, 3}, 0))
 	awc := append(s.rootAW(), s.genChallenge(0))
 	awk := append(s.rootAW(), s.kill("scowner", "b0"))
-	return map[string][]chainsim.Action{"AO": s.rootAO(), "AWP": s.rootAWP(), "TD": s.rootTD(), "base": s.rootBase(), "A": s.rootA(), "AW": s.rootAW(), "AWC": awc, "AWK": awk, "AB": ab, "F": f, "F2": f2}
+	return map[string][]chainsim.Action{"AWM": s.rootAWM(), "AX": s.rootAX(), "TS": s.rootTS(), "AO": s.rootAO(), "AWP": s.rootAWP(), "TD": s.rootTD(), "base": s.rootBase(), "A": s.rootA(), "AW": s.rootAW(), "AWC": awc, "AWK": awk, "AB": ab, "F": f, "F2": f2}
 }
 
 // fullAlphabet is the union of every action used by some check (the probe command picks from it).
@@ -380,11 +380,14 @@ func withLegend(mons []chainsim.Monitor, legend string) []chainsim.Monitor {
 }
 
 func c12(run *ev.Run, variant string) {
+	if variant == "dry" {
+		blobberSlash = 0 // penalties of the dry part never slash (the zero-slash branch of blobberPenalty)
+	}
 	s := newScen(0.1)
 	r := s.roots()
 	if variant == "dry" {
 		run.Rule = "BFS over all sequences up to the depth bound on allocation T (128 KiB, funded at exactly its price, write pool nearly emptied by three 1-byte markers charged as full chunks): further 1-byte uploads (clamped by the write pool), 1-byte deletes (clamped by the blobber value), challenge generation and responses, extension with and without tokens, write-pool lock, cancel, finalize; after every transition, for EVERY allocation node: challenge pool balance == sum of ChallengePoolIntegralValue"
-		s.explore(run, s.dryAlphabet(run.Thorough()), pick(run, r, "TD"), 3, 4, s.cpMonitor)
+		s.explore(run, s.dryAlphabet(run.Thorough()), pick(run, r, "TD", "TS"), 3, 4, s.cpMonitor)
 		return
 	}
 	run.Rule = "BFS over all sequences up to the depth bound of write markers (+/-), challenge generation and responses (pass/fail/partial/late), extend, resize, add/replace blobber (alive and killed), settings change, kill, cancel, finalize on allocation A from root states {A with data, A with data and an open challenge, A with data after every data-holding blobber lowered its write price (extension then moves tokens out of the challenge pool); thorough tier also A fresh}; after every transition, for EVERY allocation node: challenge pool balance == sum of ChallengePoolIntegralValue, and no challenge pool without its allocation"
@@ -411,7 +414,11 @@ func c14(run *ev.Run, variant string) {
 	s := newScen(0.1)
 	r := s.roots()
 	run.Rule = "BFS over sequences of cancel/finalize by owner, blobber, stranger before and after expiry (repeated), then write-pool lock, update, write marker, challenge response, read marker on the closed allocation; oracle per transition: a close succeeds only for an authorised caller at the right time on an existing allocation and removes allocation and challenge pool; blobbers receive <= outstanding challenge value + cancellation charge, and in total no more than the configured cancellation charge beyond the challenge value earned since their last finalized challenge; an authorised close at the right time does not fail (also with a fresh open challenge); owner refund + blobber payments == write pool + challenge pool; any operation naming a closed allocation fails and changes only fee/nonce"
-	s.explore(run, s.closeAlphabet(run.Thorough()), pick(run, r, "AW", "AWC", "AWK"), 3, 4, s.closeMonitor)
+	if run.Thorough() {
+		s.explore(run, s.closeAlphabet(true), pick(run, r, "AW", "AWM", "AWC", "AWK"), 3, 4, s.closeMonitor)
+		return
+	}
+	s.explore(run, s.closeAlphabet(false), pick(run, r, "AWM", "AWC", "AWK"), 3, 4, s.closeMonitor)
 }
 
 func c15(run *ev.Run, variant string) {
@@ -431,6 +438,9 @@ func c24(run *ev.Run, variant string) {
 // c09: the liabilities oracle on every transition of the explorations above; one part per
 // exploration (the variant is passed through META args).
 func c09(run *ev.Run, variant string) {
+	if variant == "dry" {
+		blobberSlash = 0
+	}
 	s := newScen(0.1)
 	r := s.roots()
 	run.Rule = "storage contract: L = sum over ALL stake pools (delegate balances + unpaid rewards), write pools, challenge pools and read pools, W = balance of the storage contract address; after every transition dL <= dW (no block reward accrues in these alphabets). Variant " + variant
@@ -449,12 +459,12 @@ func c09(run *ev.Run, variant string) {
 		}
 		acts = append(acts, s.collect("c2", spenum.Blobber, "b1"), s.unstake("c2", spenum.Blobber, "b3", 0))
 		if run.Thorough() {
-			s.explore(run, acts, pick(run, r, "AW", "AWC", "AWK", "AWP"), 2, 3, s.liabMonitor)
+			s.explore(run, acts, pick(run, r, "AW", "AWM", "AWC", "AWK", "AWP"), 2, 3, s.liabMonitor)
 		} else {
-			s.explore(run, acts, pick(run, r, "AW", "AWK", "AWP"), 2, 3, s.liabMonitor)
+			s.explore(run, acts, pick(run, r, "AWM", "AWK", "AWP"), 2, 3, s.liabMonitor)
 		}
 	case "dry":
-		s.explore(run, s.dryAlphabet(run.Thorough()), pick(run, r, "TD"), 3, 4, s.liabMonitor)
+		s.explore(run, s.dryAlphabet(run.Thorough()), pick(run, r, "TD", "TS"), 3, 4, s.liabMonitor)
 	case "read":
 		s.explore(run, s.readAlphabet(run.Thorough()), pick(run, r, "AB"), 3, 4, s.liabMonitor)
 	case "free":
@@ -470,6 +480,21 @@ func c04(run *ev.Run, variant string) {
 	s := newScen(0.1)
 	r := s.roots()
 	mon.FreeStorageDebitOK = s.freeStorageDebitOK
+	if variant == "3p" {
+		acts := []chainsim.Action{
+			s.setThirdParty("A", "c0"),
+			s.setThirdParty("A", "c1"),
+			s.update("A", "c1", 0, true, -1, -1, ZCN, 0, 0),
+			s.update("A", "c1", GB, false, -1, -1, 3*ZCN, 0, 0),
+			s.update("A", "c3", 0, true, -1, -1, 0, 0, 2),
+			s.update("A", "c0", 0, true, -1, -1, ZCN, 0, 0),
+			s.writePoolLock("A", "c1", ZCN, 0),
+			s.cancel("A", "c0", 0, 0),
+		}
+		run.Rule = "storage contract, third-party extension: BFS over sequences of set_third_party_extendable by the owner / a stranger, update_allocation_request (extend, resize) with value > 0 by non-owners and by the owner, write-pool lock by a non-owner, cancel, from an allocation that is / is not yet third-party extendable; debit-authorisation oracle of lib/mon per transition (only the sender, up to value+fee, or the called contract may lose tokens)"
+		s.explore(run, acts, pick(run, r, "AX", "A"), 3, 4, mon.DebitMonitor(s.w))
+		return
+	}
 	run.Rule = "storage contract, free storage: BFS over sequences of free-storage markers of 3 assigners (valid, replayed, redeemed out of nonce order and replayed, over-limit, forged, wrong recipient) and assigner registrations; oracle per transition: an account that loses tokens is the sender (<= value+fee), the called contract, the source of a validly signed transfer, or the configured storage owner wallet under a free_allocation_request whose marker is validly signed by a registered assigner, names the submitter, and whose (assigner, nonce) was not accepted earlier along the path (the path record is kept by the harness from the owner wallet's debits, not read from the contract)"
 	s.explore(run, s.tracked(s.freeAlphabet(run.Thorough())), pick(run, r, "F", "F2"), 3, 4, mon.DebitMonitor(s.w))
 }
